@@ -134,8 +134,16 @@ class C16(Property):
             cases.append({"name": f"ref {json.dumps(sh6, sort_keys=True)}", "shape": sh6, "plan": [], "max_retries": 6, "ref": True})
         cases.append({"name": "corpus scatter6 one fail-stop transfer failure of b/0.0 deleting a", "shape": sh6, "max_retries": 6,
                       "plan": [{"step": "/b", "tag": "0.0", "phase": "transfer", "kind": "failstop", "count": 1, "lose": [["/b", "0.0"], ["/a", "0"]]}]})
+        # corpus: a scatter (and its producer) re-run INSIDE a recovery workflow — exercises ScatterStep.restore(on_tokens=…)
+        sh3 = {"kind": "scatter", "m": 3}
+        if not any(c["shape"] == sh3 and c.get("ref") for c in cases):
+            cases.append({"name": f"ref {json.dumps(sh3, sort_keys=True)}", "shape": sh3, "plan": [], "max_retries": 6, "ref": True})
+        for ph in ("execute", "transfer"):
+            cases.append({"name": f"corpus scatter3 fail-stop {ph} failure of b/0.1 deleting a (scatter re-run in the recovery workflow)",
+                          "shape": sh3, "max_retries": 6,
+                          "plan": [{"step": "/b", "tag": "0.1", "phase": ph, "kind": "failstop", "count": 1, "lose": [["/b", "0.1"], ["/a", "0"]]}]})
         results = {}
-        for case, status, r in pmap(recov.run_case, cases, timeout=900, workers=6):
+        for case, status, r in recov.run_cases(cases, timeout=300, workers=6):
             results[case["name"]] = (case, status, r)
         lines, meta = [], []
         for name, (case, status, r) in results.items():
